@@ -98,6 +98,17 @@ def execute(job):
         if t % 2 == 0:
             b.wrap()
         b2, pm = structures.rigid(b, rng, translate=False)
+        if t == 0:
+            # ordering: the atom nearest to the centre of mass (the classifier's first seed) is listed FIRST (index 0)
+            import matid.geometry as _g
+
+            w = b2.copy()
+            w.wrap()
+            j = int(np.argmin(np.linalg.norm(w.get_positions() - _g.get_center_of_mass(w), axis=1)))
+            order = np.arange(len(b2))
+            order[0], order[j] = order[j], order[0]
+            b2 = b2[order]
+            pm = np.asarray(pm)[order]
         if t % 2 == 1:
             # every second variant is NOT wrapped (atoms stored up to a cell away from the cell) and carries a FixAtoms
             # constraint, tags, charges, momenta
